@@ -23,31 +23,45 @@ type Scn struct {
 	CtxKind string `json:"ctx_kind"` // "cancel" | "deadline" | "background"
 	CtxImpl string `json:"ctx_impl"` // "std" (context.WithCancel/WithDeadline/Background) | "probe"
 	Partial bool   `json:"partial"`  // the stalled step transfers half of its bytes first
+	// Mode: "" | "reuse" (the same operation is issued again on the stream after the cancelled
+	// one returned) | "duplex" (a second operation runs on the other direction meanwhile);
+	// CB: context of that second operation, "same" | "fresh" (CancelMulti.tla)
+	Mode string `json:"mode,omitempty"`
+	CB   string `json:"cb,omitempty"`
 	// DeadlineMs: for std deadline contexts, distance of the deadline from the call
 	DeadlineMs int `json:"deadline_ms,omitempty"`
 }
 
 func (s Scn) key() string {
-	return fmt.Sprintf("%s/%s/n%d/k%d/j%d/%s/%s/%s/p%v", s.Shape, s.Role, s.N, s.K, s.J, s.Timing, s.CtxKind, s.CtxImpl, s.Partial)
+	return fmt.Sprintf("%s/%s/n%d/k%d/j%d/%s/%s/%s/p%v/%s%s", s.Shape, s.Role, s.N, s.K, s.J, s.Timing, s.CtxKind, s.CtxImpl, s.Partial, s.Mode, s.CB)
 }
 
 // Obs is the projection of what the real code did.
 type Obs struct {
-	Returned   bool    `json:"returned"`
-	ErrClass   string  `json:"err_class"` // "none" | "ctx" | "other"
-	ErrText    string  `json:"err,omitempty"`
-	LatencyMs  float64 `json:"latency_ms"`         // from the firing of the context to the return
-	Closed     bool    `json:"closed"`             // the code under test closed the connection (within 1 s of the return)
-	Fired      bool    `json:"fired"`              // the planned firing point was reached
-	FiredBy    string  `json:"fired_by,omitempty"` // probe context: "stop" (inside cedar's stop()) | "err" (at an Err() check) | "cancel"
-	StallSeen  bool    `json:"stall_seen"`
-	StallHeld  bool    `json:"stall_held"` // the call was still blocked a moment after the stall began
-	Steps      string  `json:"steps"`      // kinds of the steps started, e.g. "wrrww"
-	StepsDone  int     `json:"steps_done"`
-	Inconcl    string  `json:"inconclusive,omitempty"`
-	PeerErr    string  `json:"peer_err,omitempty"`
+	Returned  bool    `json:"returned"`
+	ErrClass  string  `json:"err_class"` // "none" | "ctx" | "other"
+	ErrText   string  `json:"err,omitempty"`
+	LatencyMs float64 `json:"latency_ms"`         // from the firing of the context to the return
+	Closed    bool    `json:"closed"`             // the code under test closed the connection (within 1 s of the return)
+	Fired     bool    `json:"fired"`              // the planned firing point was reached
+	FiredBy   string  `json:"fired_by,omitempty"` // probe context: "stop" (inside cedar's stop()) | "err" (at an Err() check) | "cancel"
+	StallSeen bool    `json:"stall_seen"`
+	StallHeld bool    `json:"stall_held"` // the call was still blocked a moment after the stall began
+	Steps     string  `json:"steps"`      // kinds of the steps started, e.g. "wrrww"
+	StepsDone int     `json:"steps_done"`
+	Inconcl   string  `json:"inconclusive,omitempty"`
+	PeerErr   string  `json:"peer_err,omitempty"`
+	// second operation (Mode reuse / duplex)
+	BStarted   bool    `json:"b_started,omitempty"`
+	BReturned  bool    `json:"b_returned,omitempty"`
+	BErrClass  string  `json:"b_err_class,omitempty"` // "none" | "ctx" | "other"
+	BErrText   string  `json:"b_err,omitempty"`
+	BLatencyMs float64 `json:"b_latency_ms,omitempty"` // reuse: from its start; duplex: from the firing of a's context
+	BStalled   bool    `json:"b_stalled,omitempty"`    // b's peer never answers
 	CtxErrText string  `json:"ctx_err,omitempty"`
 }
+
+type derivedKey struct{}
 
 const (
 	latencyBound = time.Second     // DESIGN: return within 1 s of the firing
@@ -92,6 +106,13 @@ func exec(e *env, sh *shape, s Scn, needClosed bool) (obs Obs) {
 	case s.CtxImpl == "probe":
 		probe = newProbeCtx(cause)
 		ctx, cancel = probe, probe.Cancel
+	case s.CtxKind == "derived":
+		// the call gets a context derived (WithValue + WithCancel) from the one that is cancelled
+		parent, pcancel := context.WithCancel(context.Background())
+		child, ccancel := context.WithCancel(context.WithValue(parent, derivedKey{}, s.Shape))
+		ctx, cancel = child, pcancel
+		defer ccancel()
+		defer pcancel()
 	case s.CtxKind == "deadline":
 		// a real deadline: expired, short (fires during the stall / after the return) or far
 		d := time.Duration(s.DeadlineMs) * time.Millisecond
@@ -151,9 +172,47 @@ func exec(e *env, sh *shape, s Scn, needClosed bool) (obs Obs) {
 	peerCh := make(chan error, 1)
 	go func() { peerCh <- in.peer(pctx) }()
 
+	// second operation on the same stream (CancelMulti.tla)
+	var ctxB context.Context = context.Background()
+	bCh := make(chan error, 1)
+	var bStart time.Time
+	var bOp func(context.Context) error
+	if s.Mode == "duplex" && in.a != nil {
+		if sh.Dir == "r" {
+			// a only reads: only reads are steps; b sends three messages, the peer drains them
+			conn.OnlyKind = "read"
+			go func() {
+				for {
+					if _, err := in.b.ReceiveCompleteMessage(pctx); err != nil {
+						return
+					}
+				}
+			}()
+			bOp = func(c context.Context) error {
+				for i := 0; i < 3; i++ {
+					if err := in.a.SendMessage(c, payload(200, byte(i))); err != nil {
+						return err
+					}
+				}
+				return nil
+			}
+		} else {
+			// a only writes: only writes are steps; b waits for a message the peer never sends
+			conn.OnlyKind = "write"
+			obs.BStalled = true
+			bOp = func(c context.Context) error { _, err := in.a.ReceiveCompleteMessage(c); return err }
+		}
+	}
+	if s.Mode == "reuse" {
+		bOp = in.op
+	}
+
 	opCh := make(chan error, 1)
 	t0 := time.Now()
 	go func() { opCh <- in.op(ctx) }()
+	if s.CB == "same" {
+		ctxB = ctx
+	}
 
 	var opErr error
 	returned := false
@@ -183,6 +242,11 @@ func exec(e *env, sh *shape, s Scn, needClosed bool) (obs Obs) {
 				obs.StallHeld = true
 			} else {
 				obs.StallHeld = !waitRet(10 * time.Millisecond)
+				if s.Mode == "duplex" && bOp != nil {
+					obs.BStarted, bStart = true, time.Now()
+					go func() { bCh <- bOp(ctxB) }()
+					time.Sleep(20 * time.Millisecond) // let it run / block
+				}
 				fire()
 			}
 		case opErr = <-opCh:
@@ -213,6 +277,41 @@ func exec(e *env, sh *shape, s Scn, needClosed bool) (obs Obs) {
 		}
 	}
 	waitRet(hardWait + time.Duration(s.DeadlineMs)*time.Millisecond)
+
+	if s.Mode == "reuse" && returned && bOp != nil {
+		// the same operation again, on the stream whose previous operation was cancelled
+		obs.BStarted, bStart = true, time.Now()
+		obs.BStalled = true // whatever it needs from the peer will not come: the peer is gone or stalled
+		go func() { bCh <- bOp(ctxB) }()
+	}
+	if obs.BStarted {
+		var bErr error
+		select {
+		case bErr = <-bCh:
+			obs.BReturned = true
+			ref := bStart
+			if s.Mode == "duplex" {
+				mu.Lock()
+				if !firedAt.IsZero() {
+					ref = firedAt
+				}
+				mu.Unlock()
+			}
+			obs.BLatencyMs = float64(time.Since(ref)) / float64(time.Millisecond)
+			switch {
+			case bErr == nil:
+				obs.BErrClass = "none"
+			case ctxB.Err() != nil && errors.Is(bErr, ctxB.Err()):
+				obs.BErrClass = "ctx"
+			default:
+				obs.BErrClass = "other"
+			}
+			if bErr != nil {
+				obs.BErrText = bErr.Error()
+			}
+		case <-time.After(hardWait):
+		}
+	}
 
 	// when did the context fire?
 	mu.Lock()
@@ -387,7 +486,7 @@ func count(e *env, sh *shape, ctxKind, impl string) ([]wire.C19Step, Obs, error)
 	if peerErr != nil {
 		return steps, o, fmt.Errorf("peer failed without stall or cancellation: %v", peerErr)
 	}
-	if closed {
+	if closed && !sh.ClosesAlways {
 		return steps, o, fmt.Errorf("connection closed by the code under test although nothing was cancelled")
 	}
 	return steps, o, nil
